@@ -43,9 +43,26 @@ func c06Keywords() []namedVal {
 }
 
 func c06Operators() []namedVal {
+	all := c06AllOperators()
+	if !c06QuickAlphabet {
+		return all
+	}
+	var few []namedVal // (the quick tier keeps one operator per class)
+	for _, o := range all {
+		switch o.n {
+		case "funcOp(nil)", "user(,ctx)", "enumOp(0)", "(*ComparisonOperator)(nil)":
+			continue
+		}
+		few = append(few, o)
+	}
+	return few
+}
+
+func c06AllOperators() []namedVal {
 	return []namedVal{{"Eq", stackage.Eq}, {"Ge", stackage.Ge}, {"ComparisonOperator(0)", stackage.ComparisonOperator(0)}, {"ComparisonOperator(9)", stackage.ComparisonOperator(9)},
 		{"nil", nil}, {"user(~=,ctx)", userOp{"~=", "ctx"}}, {"sliceOp(=~,ctx)", sliceOp{"=~", "ctx"}}, {"(*ComparisonOperator)(nil)", (*stackage.ComparisonOperator)(nil)}, {"user(,ctx)", userOp{"", "ctx"}}, {"user(~=,)", userOp{"~=", ""}},
-		{"mapOp(nil)", mapOp(nil)}, {"funcOp(nil)", funcOp(nil)}, {"zeroOp{}", zeroOp{}}}
+		{"mapOp(nil)", mapOp(nil)}, {"funcOp(nil)", funcOp(nil)}, {"zeroOp{}", zeroOp{}},
+		{"enumOp(0)", enumOp(0)}, {"enumOp(7)", enumOp(7)}, {"cmpCtxOp(~=)", cmpCtxOp("~=")}}
 }
 
 // expression constructors (fresh instance per use where identity matters)
